@@ -239,3 +239,229 @@ JOIN = {
     "lub": (lambda a, b: SI().least_upper_bound(a, b)),
     "widen": (lambda a, b: a.widen(b)),
 }
+
+
+# ---------------------------------------------------------------------------------------------- uniform op table
+# A *case* is (op, args) where args is a list of interval tuples and plain ints, e.g. ("extract", [a, 5, 2]).
+# OPS[op] = dict(real=callable on real objects, conc=callable on member values (returns None when exempt),
+#                kind = "si" | "bool", prop = "C21" | "C22")
+def _ext_conc_z(x, w, nl):
+    return x
+
+
+def _ext_conc_s(x, w, nl):
+    return sgn(x, w) & M(nl)
+
+
+OPS = {}
+for _n, (_f, _c) in BIN.items():
+    OPS[_n] = dict(real=_f, conc=_c, kind="si", prop="C21", shape="bin")
+for _n, (_f, _c) in CMP.items():
+    OPS[_n] = dict(real=_f, conc=_c, kind="bool", prop="C21", shape="bin")
+for _n, (_f, _c) in UN.items():
+    OPS[_n] = dict(real=_f, conc=_c, kind="si", prop="C21", shape="un")
+OPS["zext"] = dict(real=lambda a, nl: a.zero_extend(nl), conc=_ext_conc_z, kind="si", prop="C21", shape="ext")
+OPS["sext"] = dict(real=lambda a, nl: a.sign_extend(nl), conc=_ext_conc_s, kind="si", prop="C21", shape="ext")
+OPS["extract"] = dict(real=lambda a, hi, lo: a.extract(hi, lo), conc=lambda x, w, hi, lo: (x >> lo) & M(hi - lo + 1),
+                      kind="si", prop="C21", shape="extract")
+OPS["concat"] = dict(real=lambda a, b: a.concat(b), conc=None, kind="si", prop="C21", shape="concat")
+for _n, _f in JOIN.items():
+    OPS[_n] = dict(real=_f, conc=None, kind="si", prop="C22", shape="join")
+OPS["intersection"] = dict(real=lambda a, b: a.intersection(b), conc=None, kind="si", prop="C22", shape="meet")
+OPS["lub3"] = dict(real=lambda a, b, c: SI().least_upper_bound(a, b, c), conc=None, kind="si", prop="C22", shape="join3")
+
+
+def out_width(op, args):
+    sh = OPS[op]["shape"]
+    a = args[0]
+    w = a[0] if not isinstance(a, str) else int(a.split(":")[1])
+    if sh == "ext":
+        return args[1]
+    if sh == "extract":
+        return args[1] - args[2] + 1
+    if sh == "concat":
+        return w + args[1][0]
+    return w
+
+
+def run_real(op, args):
+    objs = [mk(x) if isinstance(x, (tuple, str)) else x for x in args]
+    return call(OPS[op]["real"], *objs)
+
+
+def members_for(t, rng, limit):
+    """all members when there are at most `limit`, else a boundary-biased sample; -> (list, exhaustive?)"""
+    n = card(t)
+    if n <= limit:
+        return gamma(t), True
+    return sample_members(t, rng, min(limit, 14)), False
+
+
+def oracle(op, args, r, rng, limit=64):
+    """The property on one case of the REAL code's result `r` (canonical).  -> None | (kind, detail).
+    kinds: 'err:<Type>' (the operation raised), 'malformed' (result is not a well-formed interval),
+    'width' (wrong result width), 'unsound' (a concrete result / operand member / truth value is missing)."""
+    spec = OPS[op]
+    sh = spec["shape"]
+    if isinstance(r, str) and r.startswith("err:"):
+        return (r, r)
+    if spec["kind"] == "bool":
+        if not (isinstance(r, str) and r.startswith("bool:")):
+            return ("malformed", "not a BoolResult: %r" % (r,))
+        a, b = args
+        w = a[0]
+        ga, _ = members_for(a, rng, limit)
+        gb, _ = members_for(b, rng, limit)
+        for x in ga:
+            for y in gb:
+                v = "T" if spec["conc"](x, y, w) else "F"
+                if v not in r[5:]:
+                    return ("unsound", "x=%d y=%d gives %s, result is {%s}" % (x, y, v, r[5:]))
+        return None
+    if isinstance(r, str) and not r.startswith("bottom"):
+        return ("malformed", "not an interval: %r" % (r,))
+    if not wf(r):
+        return ("malformed", "result %s is not well formed" % (r,))
+    wout = out_width(op, args)
+    rw = int(r.split(":")[1]) if isinstance(r, str) else r[0]
+    if rw != wout:
+        return ("width", "result has %d bits, expected %d" % (rw, wout))
+    if sh == "bin":
+        a, b = args
+        ga, _ = members_for(a, rng, limit)
+        gb, _ = members_for(b, rng, limit)
+        for x in ga:
+            for y in gb:
+                z = spec["conc"](x, y, a[0])
+                if z is not None and not member(r, z):
+                    return ("unsound", "x=%d y=%d: %d is not in %s" % (x, y, z, show(r)))
+    elif sh in ("un", "ext", "extract"):
+        a = args[0]
+        ga, _ = members_for(a, rng, limit * 4)
+        for x in ga:
+            z = spec["conc"](x, a[0], *args[1:])
+            if not member(r, z):
+                return ("unsound", "x=%d: %d is not in %s" % (x, z, show(r)))
+    elif sh == "concat":
+        a, b = args
+        ga, _ = members_for(a, rng, limit)
+        gb, _ = members_for(b, rng, limit)
+        for x in ga:
+            for y in gb:
+                z = (x << b[0]) | y
+                if not member(r, z):
+                    return ("unsound", "x=%d y=%d: %d is not in %s" % (x, y, z, show(r)))
+    elif sh in ("join", "join3"):
+        for t in args:
+            g, _ = members_for(t, rng, limit * 4)
+            for x in g:
+                if not member(r, x):
+                    return ("unsound", "member %d of %s is not in %s" % (x, show(t), show(r)))
+    elif sh == "meet":
+        a, b = args
+        ga, ex = members_for(a, rng, limit * 64)
+        for x in ga:
+            if member(b, x) and not member(r, x):
+                return ("unsound", "common member %d is not in %s" % (x, show(r)))
+    return None
+
+
+# ---------------------------------------------------------------------------------------------- classifier (finding signatures)
+def has_member_in(t, lo, hi):
+    """is there a member x with lo <= x <= hi (plain integer range inside [0, 2^w))?  exact, no enumeration"""
+    if isinstance(t, str) or lo > hi:
+        return False
+    w, s, lb, ub = t
+    if s == 0:
+        return lo <= lb <= hi
+    n = span(t) // s + 1          # members lb + k*s mod 2^w, k < n
+    # piece before the wrap: k <= k1 where lb + k*s <= M(w)
+    k1 = min(n - 1, (M(w) - lb) // s)
+    def lin(p0, kmax):
+        if kmax < 0:
+            return False
+        j = 0 if lo <= p0 else -((p0 - lo) // s)
+        return j <= kmax and p0 + j * s <= hi
+    if lin(lb, k1):
+        return True
+    k = k1 + 1
+    rounds = 0
+    while k < n and rounds < 4:     # after each wrap a new linear piece starts (stride < 2^w: few wraps matter)
+        p0 = (lb + k * s) & M(w)
+        kmax = min(n - 1 - k, (M(w) - p0) // s)
+        if lin(p0, kmax):
+            return True
+        k += kmax + 1
+        rounds += 1
+    if k < n:                       # many wraps (stride >= 2^(w-2)...): fall back to enumeration of the rest, bounded
+        for kk in range(k, min(n, k + 4096)):
+            if lo <= (lb + kk * s) & M(w) <= hi:
+                return True
+    return False
+
+
+def has_neg(t):
+    return has_member_in(t, 1 << (t[0] - 1), M(t[0]))
+
+
+def has_pos(t):   # strictly positive
+    return has_member_in(t, 1, (1 << (t[0] - 1)) - 1)
+
+
+def opclass(t):
+    if isinstance(t, int):
+        return str(t)
+    if isinstance(t, str):
+        return "bot"
+    if t[1] == 0:
+        return "int"
+    if is_top(t):
+        return "top"
+    s = t[1]
+    return ("wrap" if wraps(t) else "nowrap") + ("" if aligned(t) else "-unaligned") + ("" if s & (s - 1) == 0 else "-stride-npow2")
+
+
+def classify(op, kind, args):
+    """finding signature = property / operation / kind / predicate class of the operands (a pure function of the case)"""
+    prop = OPS[op]["prop"] if op in OPS else "C22"
+    sis = [x for x in args if isinstance(x, tuple)]
+    head = "%s/%s/%s/" % (prop, op, kind)
+    if op == "sdiv" and kind == "unsound":
+        a, b = args
+        if (has_neg(a) and has_pos(b)) or (has_pos(a) and has_neg(b)):
+            return head + "operands-of-opposite-sign"
+    if any(not aligned(x) for x in sis):
+        return head + "unaligned-operand"
+    if op == "widen" and kind == "unsound":
+        a, b = args
+        if wraps(a) or wraps(b):
+            return head + "wrapping-operand"
+        if b[2] < a[2]:
+            return head + "lower-bound-extrapolated"
+        return head + "upper-bound-extrapolated-or-kept"
+    return head + "aligned:" + ",".join(opclass(x) for x in args)
+
+
+# ---------------------------------------------------------------------------------------------- generators
+WIDE_WIDTHS = [5, 6, 7, 8, 8, 9, 12, 16, 16, 31, 32, 32, 33, 64, 64]
+
+
+def rand_si(rng, w, p_unaligned=0.15):
+    lb = rng.choice([0, 1, M(w), 1 << (w - 1), (1 << (w - 1)) - 1, rng.randrange(1 << w), rng.randrange(1 << w)]) & M(w)
+    k = rng.random()
+    if k < 0.12:
+        return (w, 0, lb, lb)
+    if k < 0.17:
+        return (w, 1, 0, M(w))
+    s = rng.choice([1, 1, 1, 2, 3, 4, 5, 7, 8, 12, 16, 1 << rng.randrange(w), rng.randrange(1, 1 << w), rng.randrange(1, 1 << max(1, w // 2))])
+    if s > M(w):
+        s = rng.randrange(1, 1 << w)
+    nmax = M(w) // s
+    n = rng.choice([1, 2, 3, 4, rng.randrange(1, nmax + 1), rng.randrange(1, nmax + 1), nmax, max(1, nmax - 1)])
+    n = max(1, min(n, nmax))
+    ub = lb + n * s
+    if s > 1 and rng.random() < p_unaligned:
+        ub += rng.randrange(1, s)
+        if ub - lb > M(w):
+            ub = lb + n * s
+    return norm(w, s, lb, ub)
